@@ -1,14 +1,14 @@
-\* exhaustive design check of the root life cycle (quick): 3 stored keys over 3 bits, batches of <= 2 keys, 3 new roots,
-\* 3 life-cycle steps, every retained root x 8 query keys x 2 encodings
+\* exhaustive design check of the root life cycle (quick): 3 stored keys over 3 bits, single-key updates, 2 new roots,
+\* 2 life-cycle steps, every retained root x 8 query keys x 2 encodings
 SPECIFICATION RSpec
 CONSTANTS
   H = 3
   Keys <- RK3
   Vals <- RV2
-  MaxBatch = 2
+  MaxBatch = 1
   MaxCommits = 0
-  MaxRoots = 3
-  MaxLife = 3
+  MaxRoots = 2
+  MaxLife = 2
   CopyOnAtomic = TRUE
   Proving = TRUE
 VIEW rview
